@@ -20,7 +20,7 @@ RULE = ('kind binop: two conforming files (same dimensions/variables, float64 or
         'missing on the right) x the 13 operators + - * / // ** % < <= > >= == !=; kind mask: every subset of '
         'where (by dims or by shape) / greater / greater_equal / less / less_equal / equal, coords on/off, already '
         'masked cells; kind eval: assignments of expressions (+ - * / unary -, literals) over 1-3 variables of one '
-        'shape; non-trivial = a masked or zero-divisor cell is involved, or two predicates are combined')
+        'shape, into a new variable or (inplace) onto an existing variable of another type / maskedness; divisors incl. tiny non-zero values (2^-27 .. 2^-40); non-trivial = a masked or zero-divisor cell is involved, or two predicates are combined')
 ASSUMPTIONS = ['float64 results are compared with exact rationals within 1e-12 relative',
                'results of file arithmetic take the dtype numpy gives the expression (not the declared dtype)',
                'coordinate variables are the variables declared with setCoords()']
@@ -41,6 +41,8 @@ def _vals(rng, size, isint, masked, divisor=False, exponent=False):
             v = rng.randint(-12, 12) / 2
         if divisor and rng.random() < 0.2:
             v = 0
+        elif divisor and not isint and rng.random() < 0.12:
+            v = rng.choice([1, -1, 3]) * 2.0 ** rng.choice([-30, -40, -27])     # tiny but not zero: the quotient is finite
         out.append(v)
     if masked and size:
         for k in rng.sample(range(size), rng.randint(0, max(1, size // 3))):
@@ -121,7 +123,19 @@ def _case(rng):
     elif k < 0.4:
         # a quotient by a variable (zeros included), made safe with masked_invalid
         e = ['minv', ['bin', 'div', e, ['var', rng.choice(same)['name']]]]
-    return dict(kind=kind, spec=spec, expr=e, target='NEWVAR', coords=coords)
+    target, inplace = 'NEWVAR', False
+    if rng.random() < 0.3:
+        # inplace=True onto an existing variable of the same shape whose type or maskedness differs from the result
+        # (an integer variable, an unmasked one): the new variable replaces it
+        inplace = True
+        tvv = rng.choice(same)
+        target = tvv['name']
+        if rng.random() < 0.6:
+            tvv['dtype'] = 'i'
+            tvv['data'] = [None if x is None else int(rng.randint(-6, 6)) for x in tvv['data']]
+        if rng.random() < 0.5:
+            e = ['bin', 'div', e, ['lit', '2']]
+    return dict(kind=kind, spec=spec, expr=e, target=target, coords=coords, inplace=inplace)
 
 
 def gen(rng, tier):
@@ -181,7 +195,7 @@ def impl(case):
                 f = pfile.build(case['spec'])
                 f.setCoords(case['coords'])
                 with np.errstate(all='ignore'):
-                    o = f.eval('%s = %s' % (case['target'], _py(case['expr'])))
+                    o = f.eval('%s = %s' % (case['target'], _py(case['expr'])), inplace=bool(case.get('inplace')))
         return dict(obs=pfile.observe(o))
     except Exception as e:
         return dict(err=type(e).__name__, msg=str(e)[:100])
@@ -199,7 +213,8 @@ def to_line(case, res):
             co, 1 if case['maskcoords'] else 0, ' '.join(pfile.encode(case['spec'])),
             ('.'.join(w['dims']) if (w and (w['bydims'] or True)) else '_') if w else '_',
             lib.show_list(w['bits']) if w else '-', g('greater'), g('greater_equal'), g('less'), g('less_equal'), g('equal'))
-    return 'c06 eval %s %s %s %s' % (case['target'], ','.join(_flat(case['expr'])), co, ' '.join(pfile.encode(case['spec'])))
+    line = 'c06 eval %s %s %s %s' % (case['target'], ','.join(_flat(case['expr'])), co, ' '.join(pfile.encode(case['spec'])))
+    return line + (' 1' if case.get('inplace') else '')
 
 
 def _strip_flags(text):
